@@ -297,6 +297,16 @@ def run(tier):
         frame_summary(r)
     except Exception:
         r.notes.append('frame summary not produced: ' + traceback.format_exc()[-500:])
+    try:
+        from vf import pproof, engp
+        obls, npaths = wrapper_obligations()
+        pproof.discharge(r, obls, file='src/hydrodiy/stat/metrics.py', fn_of=lambda ob: 'anderson_darling_test (python wrapper)')
+        r.functions.append(dict(file='metrics.py', fn='anderson_darling_test (python wrapper)', trusted=['c_hydrodiy_stat.ad_test (replaced by a recorder that reorders its buffer)'], nonterminating=[], cutloops=0, unrolled=0, terminating=0))
+        r.extra['paths_explored'] = npaths
+    except (engp.Unsupported, engp.PathLimit) as e:
+        r.undecided.append('Engine P cannot execute the current anderson_darling_test wrapper symbolically: %s' % (str(e)[:300],))
+    except Exception:
+        r.broken.append('C18 Engine P driver crashed: ' + traceback.format_exc()[-2500:])
     from vf import child
     res = child.run('props.C18', 'monitors_child', r.prop, r.tier, r.seed)
     child.merge(r, res['recorder'])
@@ -308,3 +318,55 @@ def run(tier):
     r.explanation = ('proved (Engine C): every kernel writes only inside its assigns clause (inputs outside it are unchanged for all inputs); '
                      'bounded: caller-side copies of every argument compared before / after each API call, repeated calls compared')
     return r.finish()
+
+
+# ------------------------------------------------------------------------------------------------ Engine P: the wrapper of the kernel that sorts its input
+def wrapper_obligations():
+    """c_ad_test sorts `unifdata` in place (its assigns clause names that input): the python wrapper anderson_darling_test must hand it a COPY.
+    The real wrapper runs on a symbolic float64 array with the compiled module replaced by a recorder that looks at the buffer it is given."""
+    import numpy as np, z3
+    from vf import engp, pproof, pybuild
+    from vf.engp import sym, SymReal, SA
+    pybuild.activate()
+    from hydrodiy.stat import metrics as M
+    n = 4
+    x = [sym('u%d' % i) for i in range(n)]
+    names = ['u%d' % i for i in range(n)]
+    eq = lambda a, b: z3.And(z3.Not(SymReal.lift(a).nan), SymReal.lift(a).val == SymReal.lift(b).val)
+    obls = []; npaths = 0
+    for layout in ('contiguous', 'strided'):
+        state = {}
+
+        class Kernel:
+            def ad_test(self, unifdata, outputs):
+                state['shares'] = bool(np.shares_memory(unifdata, state['caller'])); state['vals'] = list(np.asarray(unifdata, dtype=object).ravel())
+                state['out0'] = [float(v) for v in outputs]
+                unifdata[:] = unifdata[::-1].copy()          # the kernel reorders its buffer
+                outputs[0] = 0.25; outputs[1] = 0.75
+                return 0
+
+        def run():
+            if layout == 'contiguous':
+                a = np.empty(n, dtype=object); a[:] = x
+            else:
+                big = np.empty(2 * n, dtype=object); big[::2] = x; big[1::2] = [0.0] * n; a = big[::2]
+            a = a.view(SA); state['caller'] = a
+            before = list(a)
+            res = M.anderson_darling_test(a)
+            return res, before, list(a)
+        saved = (M.np, M.c_hydrodiy_stat, M.has_c_module)
+        M.np = engp.NPProxy(); M.c_hydrodiy_stat = Kernel(); M.has_c_module = lambda *a, **kw: True
+        try:
+            paths = engp.explore(run, base=[], allowed_exc=())
+        finally:
+            M.np, M.c_hydrodiy_stat, M.has_c_module = saved
+        npaths += len(paths)
+        for kp, pa in enumerate(paths):
+            res, before, after = pa.result
+            hyp = list(pa.pc) + list(pa.axioms)
+            tag = 'metrics.py/anderson_darling_test/%s/path%d' % (layout, kp)
+            obls.append(pproof.PObligation(tag + '/kernel-gets-a-copy', 'post', 'the buffer handed to the sorting kernel does not share memory with the caller\'s array and holds the same values; the outputs start at zero', hyp,
+                                           z3.And(z3.BoolVal((not state['shares']) and len(state['vals']) == n and state['out0'] == [0.0, 0.0]), *[eq(state['vals'][i], x[i]) for i in range(min(n, len(state['vals'])))]), names))
+            obls.append(pproof.PObligation(tag + '/argument-unchanged', 'post', 'the caller\'s array is element for element the same object after the call', hyp, z3.BoolVal(all(a is b for a, b in zip(before, after)) and len(before) == len(after)), names))
+            obls.append(pproof.PObligation(tag + '/returns-kernel-output', 'post', 'the statistic and p-value written by the kernel are returned', hyp, z3.BoolVal(float(res[0]) == 0.25 and float(res[1]) == 0.75), names))
+    return obls, npaths
